@@ -982,6 +982,15 @@ def _quant(interp, args, is_forall):
                 with st.scope(rng):
                     if st.infeasible_site():
                         v = True if is_forall else False
+                    elif qf.prefix:
+                        # a case combination in which the body raises: the body does not hold there
+                        # (natively the clause would raise, i.e. fail); without local case split the
+                        # exception propagates as before
+                        from .interp import PyRaise
+                        try:
+                            v = interp.truth(interp.call(pred, [SInt(j)], {}))
+                        except PyRaise:
+                            v = False
                     else:
                         v = interp.truth(interp.call(pred, [SInt(j)], {}))
             finally:
@@ -1053,7 +1062,8 @@ def _prefix_fun(interp, args, is_count):
     """sum_prefix(xs, k, f) / count_prefix(xs, k, pred): the value P(k) of the prefix function of the
     sequence, with the definition unfolded at k:  P(0) = 0,  P(k) = P(k-1) + f(xs[k-1])  for 0 < k <= len.
     Sound for sequences that only grow at the end (append): elements below an index never change."""
-    xs, k, f = args
+    xs, k, f = args[:3]
+    extra = list(args[3:])       # further (fixed) arguments of f
     st = interp.st
     if isinstance(xs, (SOpt, SChoice)):
         xs = interp.resolve(xs)
@@ -1061,7 +1071,7 @@ def _prefix_fun(interp, args, is_count):
         k = interp.resolve(k)
 
     def value_at(x):
-        v = interp.call(f, [x], {})
+        v = interp.call(f, [x] + extra, {})
         if is_count:
             t = interp.truth(v)
             return 1 if t is True else 0 if t is False else wrap(z3.If(t.t, 1, 0))
@@ -1084,8 +1094,19 @@ def _prefix_fun(interp, args, is_count):
         raise Unsupported('sum_prefix/count_prefix need a module-level function (no lambda/closure)')
     base, idx = xs.key if xs.key is not None else (xs.uid, ())
     name = '%s<%s|%s.%s>' % ('count' if is_count else 'sum', base, f.__module__, f.__qualname__)
-    fn = z3.Function(name, *([z3.IntSort()] * (len(idx) + 2)))
-    P = lambda t: fn(*(list(idx) + [t]))
+    idx = list(idx)
+    for e in extra:      # the prefix function also depends on the extra arguments
+        if isinstance(e, (SOpt, SChoice)):
+            e = interp.resolve(e)
+        if isinstance(e, (SInt, SBool, SStr, int, str, bool)):
+            idx.append(to_z3(e))
+        elif isinstance(e, Opaque):
+            name += '|' + e._pv_uid
+            idx.extend(e._pv_index)
+        else:
+            raise Unsupported('sum_prefix/count_prefix: extra argument %r' % (e,))
+    fn = z3.Function(name, *([x.sort() for x in idx] + [z3.IntSort(), z3.IntSort()]))
+    P = lambda t: fn(*(idx + [t]))
     kt = to_z3(k)
     st.assume(P(z3.IntVal(0)) == 0)
     if not (isinstance(k, int) and k <= 0):
@@ -1095,8 +1116,14 @@ def _prefix_fun(interp, args, is_count):
                 v = value_at(slist_elem(interp, xs, z3.simplify(kt - 1)))
                 st.assume(P(kt) == P(kt - 1) + to_z3(v))
         if is_count:
-            # consequence of the definition by induction on k (trusted lemma, DESIGN 2.5)
+            # consequences of the definition by induction on k (trusted lemmas, DESIGN 2.5):
+            # bounds, and a count never decreases
             st.assume(z3.Implies(z3.And(kt >= 0, kt <= xs.length), z3.And(P(kt) >= 0, P(kt) <= kt)))
+            lemma_key = ('count-monotone', name)
+            if lemma_key not in st.ghost:
+                st.ghost[lemma_key] = True
+                a, b = z3.Int(name + '!a'), z3.Int(name + '!b')
+                st._add(z3.ForAll([a, b], z3.Implies(z3.And(0 <= a, a <= b, b <= xs.length), P(a) <= P(b))))
     return wrap(P(kt))
 
 
